@@ -8,6 +8,7 @@ import impl
 
 PID = "C01"
 LEAN_MODULES = ["BtcHd.Props.C01"]
+LEAN_MODULES_THOROUGH = ['BtcHd.Props.TrBip32']
 TRUSTED_BASE = common.CORE_TRUSTED + [
     "HMAC-SHA512, HASH160 and the curve are parameters of the theorems: they hold for every PRF output; "
     "the driver's concrete primitives are compared with hashlib/python-ecdsa on every case"]
